@@ -233,7 +233,14 @@ fn gen_time_limit(rng: &mut Rng) -> u64 {
         5 => (1u64 << 31) * 1_000_000 - 1_000_000,
         6 => (1u64 << 31) * 1_000_000 + 1_000_000,
         7 => 30 * 86_400 * 1_000_000_000,
-        8 => 400 * 86_400 * 1_000_000_000,
+        // far beyond everything: 400 days, or the largest Duration there is (u64::MAX stands for Duration::MAX)
+        8 => {
+            if rng.chance(1, 2) {
+                400 * 86_400 * 1_000_000_000
+            } else {
+                u64::MAX
+            }
+        }
         _ => rng.range(100_000_000, 1_500_000_000),
     }
 }
@@ -796,7 +803,7 @@ fn drive_reads<C: CommLike>(m: &mut Model, mut comm: C, reads: &[ReadStep], faul
             cur.size = Some(n);
         }
         if let Some(t) = st.time_ns {
-            comm = comm.lim_time(Duration::from_nanos(t));
+            comm = comm.lim_time(if t == u64::MAX { Duration::MAX } else { Duration::from_nanos(t) });
             cur.time = Some(t);
             m.any_time_limit = true;
         }
